@@ -1,1 +1,334 @@
-/- C06 — property theorems (stub: not built yet). -/
+/-
+C06 — Quaver file and in-memory chart denote the same chart, both directions.
+Property theorems (helper lemmas: `Reamber/Lemmas/Qua.lean`).  Statements are about the executable model
+`Reamber/Model/Qua.lean`, which the correspondence check ties to reamber/quaver/* on every run, and are
+stated against `Reamber/Spec/Qua.lean` (`denote`, `quantize`, `closeChart`, `docAllowed`) — the same
+definitions the harness evaluates on the implementation's output.
+-/
+import Reamber.Lemmas.Qua
+import Reamber.Generated.QuaTables
+
+namespace Reamber.Qua
+
+open Spec
+
+/-! ## tie to the source -/
+
+def tyOfAnnot : String → Option Ty
+  | "str" => some .str
+  | "int" => some .int
+  | "bool" => some .bool
+  | "float" => some .num
+  | "List[str]" => some .list
+  | _ => none
+
+/-- Every constant / table the model and the specification depend on is the one the translator read from
+the source (`harness/translators/qua_tables.py`): metadata keys, attribute order and dataclass defaults,
+the keys `_read_metadata` and `_write_meta` use, the annotated type of every attribute, the `.get` defaults of
+`_read_bpms` / `_read_svs`, `Bpm.__init__`'s metronome default, the rename / fillna / astype tables and the lane
+shift of the four `from_yaml` / `to_yaml`, the order of the section pops. -/
+theorem consts_tie :
+    metaTable = Generated.Qua.metaTable ∧
+    Generated.Qua.metaReadKeys = Generated.Qua.metaWriteKeys ∧
+    Generated.Qua.metaWriteKeys.map Prod.fst = metaKeys ∧
+    Generated.Qua.tagsRead = (tagsKey, "", " ") ∧ Generated.Qua.tagsJoin = " " ∧
+    metaKeyTypes.map (fun kt => (kt.1, some kt.2)) =
+      Generated.Qua.metaAnnotations.map (fun ka => (ka.1, if ka.1 = tagsKey then some Ty.str else tyOfAnnot ka.2)) ∧
+    Generated.Qua.readBpmDefaults = [("StartTime", dfltStart), ("Bpm", dfltBpm)] ∧
+    Generated.Qua.readSvDefaults = [("StartTime", dfltStart), ("Multiplier", dfltMultiplier)] ∧
+    Generated.Qua.bpmMetronomeDefault = dfltMetronome ∧
+    Generated.Qua.hitRename = [("StartTime", "offset"), ("Lane", "column"), ("KeySounds", "keysounds")] ∧
+    Generated.Qua.holdRename =
+      [("StartTime", "offset"), ("Lane", "column"), ("KeySounds", "keysounds"), ("EndTime", "length")] ∧
+    Generated.Qua.hitFill = [("offset", fillOffset), ("column", fillColumn)] ∧
+    Generated.Qua.holdFill =
+      [("StartTime", fillOffset), ("offset", fillOffset), ("column", fillColumn), ("length", fillLength)] ∧
+    Generated.Qua.hitShift = [("column", "Sub", laneShift), ("column", "Add", laneShift)] ∧
+    Generated.Qua.holdShift = [("EndTime", "Sub", 0), ("column", "Sub", laneShift), ("column", "Add", laneShift)] ∧
+    Generated.Qua.hitAstype = [("offset", "int"), ("column", "int")] ∧
+    Generated.Qua.holdAstype = [("offset", "int"), ("column", "int"), ("EndTime", "int")] ∧
+    Generated.Qua.bpmAstype = [("offset", "int"), ("bpm", "float")] ∧
+    Generated.Qua.svAstype = [("offset", "int"), ("multiplier", "float")] ∧
+    Generated.Qua.hitToYaml = [("offset", "StartTime"), ("column", "Lane"), ("keysounds", "KeySounds")] ∧
+    Generated.Qua.holdToYaml = [("offset", "StartTime"), ("column", "Lane"), ("keysounds", "KeySounds")] ∧
+    Generated.Qua.bpmToYaml = [("offset", "StartTime"), ("bpm", "Bpm")] ∧
+    Generated.Qua.svToYaml = [("offset", "StartTime"), ("multiplier", "Multiplier")] ∧
+    Generated.Qua.bpmDrop = ["metronome"] ∧ Generated.Qua.holdDrop = ["length"] ∧
+    Generated.Qua.sectionPops = ["HitObjects", "TimingPoints", "SliderVelocities"] ∧
+    Generated.Qua.writeSections = ["TimingPoints", "SliderVelocities", "HitObjects"] := by
+  repeat' apply And.intro
+  all_goals decide +kernel
+
+/-! ## "times moved by less than 1 ms" -/
+
+theorem closeT_trunc (q : Rat) : closeT q (truncI q : Rat) = true := by
+  have h := truncI_close q
+  simp [closeT, h.1, h.2]
+
+theorem closeList_map {α} (f : α → α → Bool) (g : α → α) (h : ∀ a, f a (g a) = true) :
+    ∀ l : List α, closeList f l (l.map g) = true
+  | [] => rfl
+  | a :: t => by simp [closeList, h a, closeList_map f g h t]
+
+/-- **What a file can carry is within 1 ms of the chart**: every head, tail, tempo point and scroll velocity
+of `quantize c` lies less than 1 ms from its original; lanes, key sounds, tempi, multipliers are unchanged. -/
+theorem closeChart_quantize (c : Chart) : closeChart c (quantize c) = true := by
+  unfold closeChart quantize
+  simp only [Bool.and_eq_true]
+  refine ⟨⟨⟨closeList_map _ _ ?_ _, closeList_map _ _ ?_ _⟩, closeList_map _ _ ?_ _⟩, closeList_map _ _ ?_ _⟩
+  · intro h; simp [closeHit, qHit, closeT_trunc]
+  · intro h
+    simp only [closeHold, qHold, Bool.and_eq_true]
+    rw [add_sub_self]
+    simp [closeT_trunc]
+  · intro b; simp [closeBpm, qBpm, closeT_trunc]
+  · intro s; simp [closeSv, qSv, closeT_trunc]
+
+/-! ## write, then read -/
+
+theorem hasEnd_writeHit (h : Hit) : hasEnd (writeHit h) = false := by
+  simp [hasEnd, writeHit, Rec.get, List.lookup]
+
+theorem hasEnd_writeHold (h : Hold) : hasEnd (writeHold h) = true := by
+  simp [hasEnd, writeHold, Rec.get, List.lookup]
+
+theorem intOfRat_lane (c : Int) : intOfRat (((c + laneShift : Int) : Rat) - (laneShift : Rat)) = .ok c := by
+  have : ((c + laneShift : Int) : Rat) - (laneShift : Rat) = (c : Rat) := by push_cast; linarith
+  rw [this]
+  simp [intOfRat]
+
+theorem intOfRat_int (c : Int) : intOfRat (c : Rat) = .ok c := by simp [intOfRat]
+
+theorem ksCell_write (k : KsCell) (r : Rec) (a b : String × YV) :
+    ksCell (a :: b :: ("KeySounds", ksYV k) :: r) = .ok k ∨ a.1 = "KeySounds" ∨ b.1 = "KeySounds" := by
+  by_cases ha : a.1 = "KeySounds"
+  · exact Or.inr (Or.inl ha)
+  by_cases hb : b.1 = "KeySounds"
+  · exact Or.inr (Or.inr hb)
+  left
+  have ha' : ("KeySounds" == a.1) = false := by simpa using fun e => ha e.symm
+  have hb' : ("KeySounds" == b.1) = false := by simpa using fun e => hb e.symm
+  cases k <;> simp [ksCell, Rec.get, List.lookup, ha', hb', ksYV]
+
+theorem noteRowOf_writeHit (h : Hit) :
+    noteRowOf (writeHit h) = .ok (⟨some (truncI h.offset : Rat), none, some ((h.column + laneShift : Int) : Rat), h.keysounds⟩ : NoteRow) := by
+  have hk : ksCell (writeHit h) = .ok h.keysounds := by
+    rcases ksCell_write h.keysounds [] ("StartTime", .int (truncI h.offset)) ("Lane", .int (h.column + laneShift)) with e | e | e
+    · exact e
+    · simp at e
+    · simp at e
+  simp only [noteRowOf, hk]
+  simp [writeHit, numCell, Rec.get, List.lookup, numOf, bind, Except.bind, Except.map]
+
+theorem noteRowOf_writeHold (h : Hold) :
+    noteRowOf (writeHold h) = .ok (⟨some (truncI h.offset : Rat), some (truncI (h.offset + h.length) : Rat),
+      some ((h.column + laneShift : Int) : Rat), h.keysounds⟩ : NoteRow) := by
+  have hk : ksCell (writeHold h) = .ok h.keysounds := by
+    rcases ksCell_write h.keysounds [("EndTime", .int (truncI (h.offset + h.length)))]
+      ("StartTime", .int (truncI h.offset)) ("Lane", .int (h.column + laneShift)) with e | e | e
+    · exact e
+    · simp at e
+    · simp at e
+  simp only [noteRowOf, hk]
+  simp [writeHold, numCell, Rec.get, List.lookup, numOf, bind, Except.bind, Except.map]
+
+/-- the frame rows `pd.DataFrame(dicts)` builds from written records -/
+def rowH (h : Hit) : NoteRow := ⟨some (truncI h.offset : Rat), none, some ((h.column + laneShift : Int) : Rat), h.keysounds⟩
+def rowL (h : Hold) : NoteRow :=
+  ⟨some (truncI h.offset : Rat), some (truncI (h.offset + h.length) : Rat), some ((h.column + laneShift : Int) : Rat), h.keysounds⟩
+
+theorem hitsFromYaml_write (hs : List Hit) (hne : hs ≠ []) :
+    hitsFromYaml (hs.map writeHit) = .ok (hs.map qHit) := by
+  unfold hitsFromYaml
+  rw [mapE_map_ok noteRowOf writeHit rowH noteRowOf_writeHit hs]
+  simp only [bind, Except.bind]
+  have hall : (hs.map rowH).all (fun r => r.lane.isNone) = false := by
+    cases hs with
+    | nil => exact absurd rfl hne
+    | cons a t => simp [rowH]
+  rw [hall]
+  simp only [Bool.false_eq_true, if_false, List.map_map]
+  apply mapE_map_ok
+  intro h
+  simp [rowH, intOfRat_int, qHit, fillOffset]
+
+theorem holdsFromYaml_write (hs : List Hold) (hne : hs ≠ []) :
+    holdsFromYaml (hs.map writeHold) = .ok (hs.map qHold) := by
+  unfold holdsFromYaml
+  rw [mapE_map_ok noteRowOf writeHold rowL noteRowOf_writeHold hs]
+  simp only [bind, Except.bind, List.map_map]
+  have hall : (List.map ((fun r : NoteRow => { r with endT := nanSub r.endT r.start }) ∘
+      (fun r : NoteRow => { r with start := some (r.start.getD fillOffset) }) ∘ rowL) hs).all
+      (fun r => r.lane.isNone) = false := by
+    cases hs with
+    | nil => exact absurd rfl hne
+    | cons a t => simp [rowL]
+  rw [hall]
+  simp only [Bool.false_eq_true, if_false]
+  apply mapE_map_ok
+  intro h
+  simp [rowL, intOfRat_int, qHold, fillOffset, fillLength, nanSub]
+
+theorem filter_hits (hs : List Hit) (ls : List Hold) :
+    (hs.map writeHit ++ ls.map writeHold).filter (fun r => !hasEnd r) = hs.map writeHit := by
+  rw [List.filter_append]
+  have h1 : (hs.map writeHit).filter (fun r => !hasEnd r) = hs.map writeHit := by
+    apply List.filter_eq_self.mpr
+    intro r hr
+    obtain ⟨h, _, rfl⟩ := List.mem_map.mp hr
+    simp [hasEnd_writeHit]
+  have h2 : (ls.map writeHold).filter (fun r => !hasEnd r) = [] := by
+    apply List.filter_eq_nil_iff.mpr
+    intro r hr
+    obtain ⟨h, _, rfl⟩ := List.mem_map.mp hr
+    simp [hasEnd_writeHold]
+  rw [h1, h2, List.append_nil]
+
+theorem filter_holds (hs : List Hit) (ls : List Hold) :
+    (hs.map writeHit ++ ls.map writeHold).filter hasEnd = ls.map writeHold := by
+  rw [List.filter_append]
+  have h1 : (hs.map writeHit).filter hasEnd = [] := by
+    apply List.filter_eq_nil_iff.mpr
+    intro r hr
+    obtain ⟨h, _, rfl⟩ := List.mem_map.mp hr
+    simp [hasEnd_writeHit]
+  have h2 : (ls.map writeHold).filter hasEnd = ls.map writeHold := by
+    apply List.filter_eq_self.mpr
+    intro r hr
+    obtain ⟨h, _, rfl⟩ := List.mem_map.mp hr
+    simp [hasEnd_writeHold]
+  rw [h1, h2, List.nil_append]
+
+/-- hits only, holds only, no objects at all are the cases `hs = []` / `ls = []` of this statement -/
+theorem readNotes_write (hs : List Hit) (ls : List Hold) :
+    readNotes (hs.map writeHit ++ ls.map writeHold) = .ok (hs.map qHit, ls.map qHold) := by
+  unfold readNotes
+  simp only [filter_hits, filter_holds]
+  cases hs with
+  | nil =>
+    cases ls with
+    | nil => rfl
+    | cons a t =>
+      have e2 := holdsFromYaml_write (a :: t) (by simp)
+      simp only [List.map_cons] at e2
+      simp [e2, bind, Except.bind]
+  | cons b u =>
+    have e1 := hitsFromYaml_write (b :: u) (by simp)
+    simp only [List.map_cons] at e1
+    cases ls with
+    | nil => simp [e1, bind, Except.bind]
+    | cons a t =>
+      have e2 := holdsFromYaml_write (a :: t) (by simp)
+      simp only [List.map_cons] at e2
+      simp [e1, e2, bind, Except.bind]
+
+theorem readBpm_write (b : Bpm) : readBpm (writeBpm b) = .ok (qBpm b) := by
+  simp [readBpm, writeBpm, numCell, Rec.get, List.lookup, numOf, bind, Except.bind, Except.map, qBpm, dfltMetronome]
+
+theorem readSv_write (s : Sv) : readSv (writeSv s) = .ok (qSv s) := by
+  simp [readSv, writeSv, numCell, Rec.get, List.lookup, numOf, bind, Except.bind, Except.map, qSv]
+
+/-! metadata -/
+
+/-- `_write_meta` on one entry, as a function -/
+def wvP (kv : String × YV) : String × YV :=
+  if kv.1 = tagsKey then
+    match kv.2 with
+    | .strs l => (kv.1, .str (joinTags l))
+    | _ => kv
+  else kv
+
+theorem wvP_fst (kv : String × YV) : (wvP kv).1 = kv.1 := by
+  unfold wvP; split
+  · split <;> rfl
+  · rfl
+
+/-- the hypotheses on the metadata of a chart: its entries are the 21 attributes in order, and every tag can
+survive `" ".join` / `split(" ")` (non-empty, no space) -/
+def MetaOk (m : Rec) : Prop := metaKeysOk m = true ∧ tagsOk m = true
+
+theorem metaKeys_nodup : metaKeys.Nodup := by decide
+
+theorem tags_of_metaOk (m : Rec) (h : MetaOk m) (kv : String × YV) (hkv : kv ∈ m) (hk : kv.1 = tagsKey) :
+    ∃ l, kv.2 = .strs l ∧ l.all tagOk = true := by
+  obtain ⟨hkeys, htags⟩ := h
+  have hk' : m.map Prod.fst = metaKeys := by simpa [metaKeysOk] using hkeys
+  have hl : m.lookup tagsKey = some kv.2 := by
+    apply lookup_of_mem_nodup m tagsKey kv.2 (by rw [hk']; exact metaKeys_nodup)
+    rw [← hk]; exact hkv
+  unfold tagsOk Rec.get at htags
+  rw [hl] at htags
+  cases hv : kv.2 with
+  | strs l => exact ⟨l, rfl, by simpa [hv] using htags⟩
+  | _ => simp [hv] at htags
+
+theorem writeMeta_ok (m : Rec) (h : MetaOk m) : writeMeta m = .ok (m.map wvP) := by
+  unfold writeMeta
+  apply mapE_ok
+  intro kv hkv
+  unfold writeMetaVal wvP
+  by_cases hk : kv.1 = tagsKey
+  · obtain ⟨l, hl, _⟩ := tags_of_metaOk m h kv hkv hk
+    simp [hk, hl]
+  · simp [hk]
+
+theorem readMetaVal_written (m : Rec) (h : MetaOk m) (kv : String × YV) (hkv : kv ∈ m) (d : YV) :
+    readMetaVal (m.map wvP) kv.1 d = .ok kv.2 := by
+  have hk' : m.map Prod.fst = metaKeys := by simpa [metaKeysOk] using h.1
+  have hnd : ((m.map wvP).map Prod.fst).Nodup := by
+    rw [List.map_map]
+    have : (Prod.fst ∘ wvP) = (Prod.fst : String × YV → String) := by funext x; simp [wvP_fst]
+    rw [this, hk']; exact metaKeys_nodup
+  have hl : (m.map wvP).lookup kv.1 = some (wvP kv).2 := by
+    apply lookup_of_mem_nodup _ _ _ hnd
+    have : (kv.1, (wvP kv).2) = wvP kv := by rw [← wvP_fst kv]
+    rw [this]
+    exact List.mem_map.mpr ⟨kv, hkv, rfl⟩
+  unfold readMetaVal Rec.get
+  rw [hl]
+  by_cases hk : kv.1 = tagsKey
+  · obtain ⟨l, hl', hok⟩ := tags_of_metaOk m h kv hkv hk
+    simp [hk, wvP, hl', tagsOf_joinTags l hok]
+  · simp [hk, wvP]
+
+theorem mapE_table (G : String → YV → Except Err YV) :
+    ∀ (tbl s : Rec), tbl.map Prod.fst = s.map Prod.fst → (∀ kv ∈ s, ∀ d, G kv.1 d = .ok kv.2) →
+      mapE (fun kd => (G kd.1 kd.2).map (fun v => (kd.1, v))) tbl = .ok s
+  | [], [], _, _ => rfl
+  | [], _ :: _, h, _ => by simp at h
+  | _ :: _, [], h, _ => by simp at h
+  | (k, d) :: t, (k', v) :: s, h, hG => by
+    simp only [List.map_cons, List.cons.injEq] at h
+    obtain ⟨rfl, ht⟩ := h
+    have h1 := hG (k, v) (by simp) d
+    have h2 := mapE_table G t s ht (fun kv hkv d => hG kv (by simp [hkv]) d)
+    simp only [mapE, bind, Except.bind]
+    simp only at h1
+    rw [h1, h2]
+    rfl
+
+theorem readMeta_written (m : Rec) (h : MetaOk m) : readMeta (m.map wvP) = .ok m := by
+  unfold readMeta
+  apply mapE_table (fun k d => readMetaVal (m.map wvP) k d) metaTable m
+  · have hk' : m.map Prod.fst = metaKeys := by simpa [metaKeysOk] using h.1
+    rw [hk']; rfl
+  · intro kv hkv d
+    exact readMetaVal_written m h kv hkv d
+
+/-- **Read after write** (`qua_read_write`): for every chart whose rows have exactly the declared fields —
+any lanes, any (also NaN) key sounds, any rational times of either sign, hits only, holds only, empty
+sections — and whose metadata has the 21 attributes with tags that can survive a file, reading the written
+document yields exactly `quantize c`: the same objects, in the same order, times truncated to whole
+milliseconds (`closeChart_quantize`: each moved by less than 1 ms), tempo points with the default metronome. -/
+theorem qua_read_write (c : Chart) (hm : MetaOk c.info) : (write c >>= read) = .ok (quantize c) := by
+  unfold write
+  rw [writeMeta_ok c.info hm]
+  simp only [bind, Except.bind, read, sectionOf]
+  rw [readNotes_write]
+  simp only []
+  rw [mapE_map_ok readBpm writeBpm qBpm readBpm_write, mapE_map_ok readSv writeSv qSv readSv_write]
+  simp only []
+  rw [readMeta_written c.info hm]
+  rfl
+
+end Reamber.Qua
